@@ -525,3 +525,13 @@ Theorem c05_code_call_try_response_chain : forall c input,
   = lift_try (call_try_response c input).
 Proof. exact gen_call_try_response_chain. Qed.
 Print Assumptions c05_code_call_try_response_chain.
+
+(* ================================================================== what a failed try_response leaves behind (translated from the source) *)
+(** Call<RecvResponse>::try_response translated in error-state mode (theories/Gen2.v, [gen_call_try_response_errst]: the value of
+    state.reader wherever the function returns an error): the reader is as it was.  The script semantics of the model keep the call
+    unchanged when [call_try_response] fails; this is that assumption proved about the code (proofs/Gen2_equiv_call_errst.v). *)
+From Hoot.proofs Require Import Gen2_equiv_call_errst.
+Theorem c05_code_failed_try_response_changes_nothing : forall reader m input parsed partial reader',
+  gen_call_try_response_errst reader m input parsed partial = Some reader' -> reader' = reader.
+Proof. exact gen_call_try_response_errst_unchanged. Qed.
+Print Assumptions c05_code_failed_try_response_changes_nothing.
